@@ -105,7 +105,7 @@ CHECKS["C12"] = dict(
     text="Decides per directive form: assembler counter increment == loader counter increment == bytes stored (as polynomials in the directive's numbers "
          "and string length); labels bound to the counter before the increment; dw lanes; u16 counter / loop-bound overflow sites (DEFINITE = a segment "
          "beyond 64 KiB aborts or wraps instead of being diagnosed); DS := 0 dominates the first executed instruction; OFFSET returns the bound value. Does "
-         "NOT decide the whole memory image over directive sequences (composition argued) nor 'zero elsewhere'.",
+         "NOT decide the whole memory image over directive sequences (composition argued) nor 'zero elsewhere'. R2 also requires every accepting path of a labelled directive to bind the label as DATA. Not decided: a silent wrap of the assembler's counter through wrapping arithmetic (seed C12-r6 is a recorded miss).",
     design="DESIGN.md §6 C12")
 
 CHECKS["C13"] = dict(
@@ -113,7 +113,7 @@ CHECKS["C13"] = dict(
     text="Decides the recursion-guard protocol on every path, rejection of unknown macros, re-raising of expansion errors at the use site, agreement of the "
          "placeholder syntax between definition and use, that every kind of argument is substituted in a spelling the assembler accepts again with the same "
          "value (numbers included), and that nothing bounds the input-driven native recursion depth. Does NOT decide that an expansion "
-         "equals the hand-expanded body (regex whole-word replacement and string substitution are run-time semantics).",
+         "equals the hand-expanded body (regex whole-word replacement and string substitution are run-time semantics). R8: the depth test counts the open expansions so that a chain of 64 nested uses is still expanded.",
     design="DESIGN.md §6 C13")
 CHECKS["C16"] = dict(
     technique="path enumeration over all assembler action ASTs (push/add_entry pairing with the production's @L lookaround; lock/unlock bracketing) + MIR value tracing of every position handed to get_err_pos in the driver; MIR def-use tagging of the line lookup's results; CFG dominance/reachability for the line-table text",
@@ -127,7 +127,7 @@ CHECKS["C08"] = dict(
     text="Decides every link a trace argument needs, for all inputs: labels/procedures bound to the index of the next emitted instruction; one push per action "
          "path; implied ret; call pushes current+1 and jumps to fn_map[name]; ret jumps to the popped value; driver: idx0 from `start`, hlt appended once before "
          "the loop, the interpreter gets out.code[idx] and idx, arms JMP/NEXT/PRINT/INT/REPEAT/HALT update idx correctly; all 25 adjacent item-kind pairs parse. "
-         "Does NOT enumerate whole-program traces: their correctness is the composition of these links (argued in DESIGN.md).",
+         "Does NOT enumerate whole-program traces: their correctness is the composition of these links (argued in DESIGN.md). R4 also requires the return index to be pushed on every path that enters the procedure (the push, or a helper that always pushes, dominates the JMP outcome).",
     design="DESIGN.md §6 C08")
 CHECKS["C14"] = dict(
     technique="path enumeration over assembler action ASTs (rejecting branch per error class dominates every emission), grammar-shape scan of operand classes, CFG dominance of the driver's three gates, Err-never-reaches-Ok rule in preprocess()",
@@ -152,7 +152,7 @@ CHECKS["C20"] = dict(
          "the prompt; between the loop head and the interpreter call (and in the INT 3 arm) nothing assigns the instruction index or borrows the machine mutably, and "
          "the prompt/print functions take &VM; the number of prompts before an instruction is exactly 1 iff (interpreted or TF of the current flag word) and the "
          "instruction is not the appended hlt, on every path (8-row table); the bound's arithmetic cannot underflow; the line named is the instruction's own. "
-         "Does NOT decide equality of whole runs (composition of these facts over the instruction loop, argued).",
+         "Does NOT decide equality of whole runs (composition of these facts over the instruction loop, argued). R4 atom P: a comparison of the index with a remembered value may not guard the prompt.",
     design="DESIGN.md §6 C20")
 
 CHECKS["C18"] = dict(
